@@ -36,6 +36,16 @@ CHECKS['C12'] = dict(
     technique="Coq proof (codec combinators with compositional round-trip lemmas) + byte-exact differential check against libinterrogatedb + exhaustive prefix sweep",
     ref="5/C12")
 
+CHECKS['C11'] = dict(
+    text="Proof: InterrogateDatabase::remap_indices (model transcribing every record's remap_indices) preserves referential closure for every database and every first index, "
+         "numbers all entries consecutively with wrappers first (1..n) and returns the right next_index; closedb/linksb/nodupb are verified checkers (iff with their Prop specification) "
+         "that are then run on every database interrogate produces, turning 'closed for all outputs' into runtime verification with a proved checker. "
+         "Correspondence: libinterrogatedb's load of arbitrarily numbered synthetic databases must reproduce the model remap byte for byte; wrapper signatures recorded in the "
+         "database are validated by g++ against the generated definitions (translation validation).",
+    note=TB + "that the builder only emits closed databases is observed (verified checker on generated libraries x 8 option sets), not proved; g++ is the oracle for signature agreement.",
+    technique="Coq proof (remap preserves closure, consecutive numbering) + verified runtime checker + differential check of remap against libinterrogatedb + g++ redeclaration check",
+    ref="5/C11")
+
 PENDING = {
 }
 
